@@ -128,6 +128,9 @@ func cmdCheck(args []string) {
 		machineryError("load: %v", err)
 	}
 	tLoad := time.Since(t0).Seconds()
+	if len(contractWarnings) > 0 {
+		machineryError("contract files: %s", strings.Join(contractWarnings, "; "))
+	}
 	var res []*regexp.Regexp
 	for _, f := range ps.Functions {
 		re, err := regexp.Compile("^(?:" + f + ")$")
@@ -362,7 +365,7 @@ func writeReplay(P *Prog, verif, prop string, o *Obligation) replayResult {
 		r["source"] = P.prog.Fset.Position(o.Pos).String()
 	}
 	res := replayResult{path: path}
-	if o.Fn != nil && o.Verdict == "sat" {
+	if o.Fn != nil && (o.Verdict == "sat" || o.Model != "") {
 		if rp := tryReplay(P, verif, prop, o); rp != nil {
 			for k, v := range rp {
 				r[k] = v
